@@ -34,7 +34,9 @@ def outcome(fn, *a, **kw):
         # never compared: generated inputs keep nesting far below the limit
         return ("err", "RecursionError", "", None)
     except Exception as e:  # library-raised failure: data for the oracle
-        return ("err", type(e).__name__, str(e)[:300], None)
+        # the exception object itself is the 4th element: a caller may keep it (an error list), and
+        # with it the traceback and every frame and suspended generator the traceback refers to
+        return ("err", type(e).__name__, str(e)[:300], e)
     return ("ok", norm(raw), None, raw)
 
 
